@@ -1,6 +1,7 @@
 package props
 
 import (
+	"astverif/ownership"
 	"go/types"
 
 	"astverif/layout"
@@ -109,4 +110,6 @@ func c14Values(c *Ctx) {
 	decodeDate(c)
 	encodeDate(c)
 	bcd(c)
+	// a parsed descriptor stays what was parsed: no retained slice aliases the pooled payload buffer (rule S3 of C16)
+	r.Floor("S3", "borrowed/owned byte-slice source sites", ownership.BorrowTaint(c.P, r), 10)
 }
